@@ -631,7 +631,9 @@ def s_finfo(t=float):
 
 _reg(np.finfo, s_finfo)
 _UNSHIM.update({b_int: int, b_float: float, b_bool: bool})
-BUILTINS = {"range": b_range, "int": b_int, "float": b_float, "bool": b_bool, "round": b_round, "isinstance": b_isinstance}
+from .symcoll import b_set  # noqa: E402
+
+BUILTINS = {"set": b_set, "range": b_range, "int": b_int, "float": b_float, "bool": b_bool, "round": b_round, "isinstance": b_isinstance}
 
 
 class ShimModule:
